@@ -1,16 +1,9 @@
-"""Registry: what each property's check consists of (see DESIGN.md section 7)."""
+"""Registry: collects PROPS (what each check consists of) and CLAIMS (MANIFEST texts) from checks/specs/*.py."""
+import importlib, os, pkgutil
 
-BALANCE_RULE = ("seeded random histories over 5 user accounts, a calling probe contract and fresh lock accounts: mint, "
-                "public transfer (signed by the owner / somebody else / the Alphabet / called from a contract), transferX, burn, lock, "
-                "epoch ticks; amounts from {0,1,balance,balance+-1,balance/2,-1,-balance,2^63,2^70,random}; every 4th case leaves "
-                "the properties' quantifier (lock onto existing accounts) and is compared with the model only. "
-                "distinct_nontrivial = distinct (operation, observation) pairs of HALTed invocations")
-
-PROPS = {
-    "C01": dict(lean=["NeoFS.Props.C01"], driver="drv_balance", harness="balance", monitors=["C01"],
-                shards=dict(quick=1, thorough=16), rule=BALANCE_RULE),
-    "C02": dict(lean=["NeoFS.Props.C02"], driver="drv_balance", harness="balance", monitors=["C02"],
-                shards=dict(quick=1, thorough=16), rule=BALANCE_RULE),
-    "C09": dict(lean=["NeoFS.Props.C09"], driver="drv_balance", harness="balance", monitors=["C09"],
-                shards=dict(quick=1, thorough=16), rule=BALANCE_RULE),
-}
+PROPS, CLAIMS = {}, {}
+_dir = os.path.join(os.path.dirname(os.path.abspath(__file__)), "specs")
+for m in sorted(pkgutil.iter_modules([_dir]), key=lambda m: m.name):
+    mod = importlib.import_module("checks.specs." + m.name)
+    PROPS.update(getattr(mod, "PROPS", {}))
+    CLAIMS.update(getattr(mod, "CLAIMS", {}))
